@@ -54,7 +54,9 @@ pub struct CanonicalFormatter {
 /// ```
 #[derive(Debug, Default)]
 struct Object {
-    obj: BTreeMap<Vec<u8>, Vec<u8>>,
+    /// Serialized `(key, value)` pairs, ordered by the bytes of the key itself,
+    /// i.e. the normalized string, without quotes and escape sequences.
+    obj: BTreeMap<Vec<u8>, (Vec<u8>, Vec<u8>)>,
     next_key: Vec<u8>,
     next_value: Vec<u8>,
     key_done: bool,
@@ -203,7 +205,7 @@ impl Formatter for CanonicalFormatter {
         let mut writer = self.writer(writer);
         let mut first = true;
 
-        for (key, value) in object.obj {
+        for (key, value) in object.obj.into_values() {
             CompactFormatter.begin_object_key(&mut writer, first)?;
             writer.write_all(&key)?;
             CompactFormatter.end_object_key(&mut writer)?;
@@ -238,7 +240,12 @@ impl Formatter for CanonicalFormatter {
         let object = self.obj_mut()?;
         let key = std::mem::take(&mut object.next_key);
         let value = std::mem::take(&mut object.next_value);
-        object.obj.insert(key, value);
+        // Members are ordered by the bytes of their keys. Ordering by the
+        // serialized key instead would compare the closing quote with the
+        // next byte of a longer key, placing `"a "` before `"a"`, and would
+        // order escaped characters by their escape sequence.
+        let name: String = serde_json::from_slice(&key)?;
+        object.obj.insert(name.into_bytes(), (key, value));
         Ok(())
     }
 
